@@ -1,12 +1,90 @@
-/- Driver ops for the Backoff model. Stub until the model lands. -/
+/-
+  Driver ops for the back-off model (`PypyrModel/Backoff.lean`).
+
+  `backoff.schedule` {kind, sleep, sleepMax, jrc, base, n, rnd}
+     numbers on the wire: a JSON integer, or `{"f": [num, k]}` = num / 2^k.
+     sleep: number | non-empty list of numbers (list: `fixed` / `jitter` only)
+     sleepMax: number | null;  base: number | null (null = no `backoffArgs`, the default base)
+     n: how many calls `backoff_callable(1) … backoff_callable(n)`
+     rnd: the scripted `random.uniform` fractions, one per call of a jitter strategy
+   → {"intervals": [number…], "rndLeft": how many scripted fractions were not consumed}
+
+  `schedule` below is also what the C06 theorems use to state which sleeps the retry loop makes.
+-/
 import Lean.Data.Json
 import PypyrModel.Json
+import PypyrModel.Backoff
 
 namespace Pypyr.OpBackoff
 open Lean (Json)
 
-/-- Handle one request object (already parsed); `Except.error` = protocol-level reject. -/
-def handle (_op : String) (_j : Json) : Except String Json :=
-  .error "not implemented"
+/-- The first `n` values of `backoff_callable(k), backoff_callable(k+1), …`, threading the callable's
+    own state (the deque of `fixed`) and the scripted random numbers. -/
+def schedule (bo : BackoffState) (rs : List Num) (k : Nat) : Nat → List Num
+  | 0 => []
+  | n + 1 =>
+    let iv := interval bo k rs
+    iv.1 :: schedule iv.2.1 iv.2.2 (k + 1) n
+
+/-- The scripted random numbers still unused after those `n` calls. -/
+def rndAfter (bo : BackoffState) (rs : List Num) (k : Nat) : Nat → List Num
+  | 0 => rs
+  | n + 1 =>
+    let iv := interval bo k rs
+    rndAfter iv.2.1 iv.2.2 (k + 1) n
+
+/-- The callable's state after those `n` calls. -/
+def stateAfter (bo : BackoffState) (rs : List Num) (k : Nat) : Nat → BackoffState
+  | 0 => bo
+  | n + 1 =>
+    let iv := interval bo k rs
+    stateAfter iv.2.1 iv.2.2 (k + 1) n
+
+/-- The default `base` of `exponential` (`kwargs.get('base', 2) if kwargs else 2`), the same literal
+    `retryLoop` uses when `backoffArgs` gives none. -/
+def defaultBase : Num := ⟨2, 0, false⟩
+
+/-- a wire number; booleans and everything else are rejected. -/
+def numOfJson (j : Json) : Except String Num := do
+  match ← Val.ofJson j with
+  | .int i => pure ⟨i, 0, false⟩
+  | .flt n k => pure ⟨n, k, true⟩
+  | _ => throw s!"not a number: {j.compress}"
+
+def optNumOfJson (j : Json) : Except String (Option Num) :=
+  match j with
+  | .null => pure none
+  | other => do pure (some (← numOfJson other))
+
+def numToJson (x : Num) : Json := x.toVal.toJson
+
+def handle (op : String) (j : Json) : Except String Json := do
+  match op with
+  | "schedule" =>
+    let kindS ← (← j.getObjVal? "kind").getStr?
+    let some kind := BackoffKind.ofName? kindS | throw s!"unknown back-off strategy {kindS}"
+    let sleepJ ← j.getObjVal? "sleep"
+    let (sl, lst) ← match sleepJ with
+      | .arr xs => do
+        let ns ← xs.toList.mapM numOfJson
+        if ns.isEmpty then throw "empty sleep list"
+        match kind with
+        | .fixed | .jitter => pure (numZero, some ns)
+        | _ => throw "list sleep with a strategy that takes a number"
+      | other => do pure ((← numOfJson other), (none : Option (List Num)))
+    let maxSleep ← optNumOfJson (← j.getObjVal? "sleepMax")
+    let jrc ← numOfJson (← j.getObjVal? "jrc")
+    let base ← match j.getObjVal? "base" with
+      | .ok b => do pure ((← optNumOfJson b).getD defaultBase)
+      | .error _ => pure defaultBase
+    let n ← jsonNat? (← j.getObjVal? "n")
+    let rnd ← (← (← j.getObjVal? "rnd").getArr?).toList.mapM numOfJson
+    if kind.isJitter && rnd.length < n then throw "not enough scripted random numbers"
+    let bo := mkBackoff kind sl lst maxSleep jrc base
+    let out := schedule bo rnd 1 n
+    let left := (rndAfter bo rnd 1 n).length
+    pure (Json.mkObj [("intervals", Json.arr (out.map numToJson).toArray),
+                      ("rndLeft", Json.num (Lean.JsonNumber.fromNat left))])
+  | _ => .error s!"unknown op {op}"
 
 end Pypyr.OpBackoff
